@@ -1587,10 +1587,16 @@ func (run *e3Run) oracle(final bool) {
 			case f.H == p.H && f.Inc != p.Inc && f.Hash == p.Hash:
 				// repeat of the last height right after a restart: the finalization was not stored yet
 				run.count("oracle.repeat-after-restart", 1)
+			case f.H == p.H && f.Inc == p.Inc && f.Hash == p.Hash:
+				// the same block handed to the driver twice by one running engine: not "increasing",
+				// but kept apart from gaps and regressions (a different, milder defect)
+				run.violate("C03:same-height-finalized-twice-without-restart",
+					fmt.Sprintf("node %d: FinalizeBlockRequest for height %d (hash %s) sent twice by incarnation %d (rounds %d and %d)", node, f.H, f.Hash, f.Inc, p.Round, f.Round),
+					map[string]any{"node": node, "records": recs})
 			default:
 				what := "not-contiguous"
 				if f.H == p.H && f.Inc == p.Inc {
-					what = "same height finalized twice by one incarnation"
+					what = "same height finalized twice by one incarnation with different blocks"
 				}
 				run.violate("C03:finalized-heights-not-contiguous",
 					fmt.Sprintf("node %d: finalized height %d (incarnation %d) after height %d (incarnation %d): %s", node, f.H, f.Inc, p.H, p.Inc, what),
